@@ -46,6 +46,7 @@ Inductive derr : Type :=
 | EBounds       (* PITR: batch or record exceeds bounds; index entry out of bounds *)
 | EIndex        (* index: too small / version / count *)
 | ENoBatches    (* BuildSegment: no batches / empty payload *)
+| ELastDelta    (* NewRecordBatchFromBytes: negative lastOffsetDelta *)
 | EFuel.        (* model artefact, proven unreachable *)
 
 Definition derr_eqb (a b : derr) : bool :=
@@ -53,7 +54,7 @@ Definition derr_eqb (a b : derr) : bool :=
   | ESmall, ESmall | EMagic, EMagic | EBatchSmall, EBatchSmall | ECompressed, ECompressed
   | ERecCount, ERecCount | ERecLen, ERecLen | EEof, EEof | EVarint, EVarint
   | EHdrCount, EHdrCount | EBounds, EBounds | EIndex, EIndex | ENoBatches, ENoBatches
-  | EFuel, EFuel => true
+  | ELastDelta, ELastDelta | EFuel, EFuel => true
   | _, _ => false
   end.
 
@@ -307,13 +308,20 @@ Section Pitr.
                     (mkScan (s_kept st + 1) (total - zlen rest) od (Z.max (s_max_ts st) ts))
          end.
 
+  (* NewRecordBatchFromBytes on a batch of >= 61 bytes: rejects a negative lastOffsetDelta,
+     otherwise copies the bytes ([sz] = len(data); the in-place PutUint32/64 of the
+     truncation path never change the length) *)
+  Definition new_record_batch (data : bytes) (sz : Z) : M bytes :=
+    if to_signed 32 (be_u (slice data 23 27)) <? 0 then fail ELastDelta
+    else do _ <- make 1 sz; ret data.
+
   (* truncateRecordBatchToTimestamp: (kept batch bytes if keep, done) *)
   Definition pitr_truncate (batch : bytes) (cutoff : Z) : M (option bytes * bool) :=
     if zlen batch <? 61 then fail EBatchSmall
     else
       let first_ts := to_signed 64 (be_u (slice batch 27 35)) in
       let max_ts := to_signed 64 (be_u (slice batch 35 43)) in
-      if max_ts <=? cutoff then (do _ <- make 1 (zlen batch); ret (Some batch, false))
+      if max_ts <=? cutoff then (do b <- new_record_batch batch (zlen batch); ret (Some b, false))
       else if cutoff <? first_ts then ret (None, true)
       else if negb (Z.land (be_u (slice batch 21 23)) 7 =? 0) then fail ECompressed
       else
@@ -321,7 +329,7 @@ Section Pitr.
         let data := skipn 61 batch in
         do st <- trunc_loop (S (length data)) count first_ts cutoff (zlen data) data (mkScan 0 0 0 first_ts);
         if s_kept st =? 0 then ret (None, true)
-        else if s_kept st =? count then (do _ <- make 1 (zlen batch); ret (Some batch, true))
+        else if s_kept st =? count then (do b <- new_record_batch batch (zlen batch); ret (Some b, true))
         else
           let t0 := take (61 + s_kept_bytes st) batch in
           do _ <- make 1 (zlen t0);
@@ -330,10 +338,8 @@ Section Pitr.
           let t3 := patch t2 35 (be_put 8 (s_max_ts st)) in
           let t4 := patch t3 57 (be_put 4 (s_kept st)) in
           let t5 := patch t4 17 (be_put 4 (crc (skipn 21 t4))) in
-          (* NewRecordBatchFromBytes copies len(truncated) bytes; the in-place PutUint32/64
-             above never change the length *)
-          do _ <- make 1 (zlen t0);
-          ret (Some t5, true).
+          do b <- new_record_batch t5 (zlen t0);
+          ret (Some b, true).
 
   (* collectRecoverableBatches: the bytes of the kept batches *)
   Fixpoint pitr_loop (fuel : nat) (body : bytes) (cutoff : Z) : M (list bytes) :=
